@@ -60,6 +60,8 @@ func genC04(r *vh.Rand) c04Spec {
 			s.Transport = r.Choose("mem", "pipe", "http-stateless", "http-stateless", "http", "sse")
 		} else if r.Chance(1, 8) {
 			s.Transport = "http-stateless"
+		} else if r.Chance(1, 7) {
+			s.Transport = "pipe-chunked" // writers that split every Write: concurrent messages must still not interleave
 		}
 		if s.Transport == "http-stateless" {
 			s.Propagate = r.Bool()
@@ -74,6 +76,9 @@ func genC04(r *vh.Rand) c04Spec {
 		if s.Mode == "sdk" {
 			if r.Chance(1, 3) && s.Version != "" && s.Transport != "http-stateless" {
 				cs.Dir = "s2c" // server->client requests need a legacy, stateful session
+				if r.Chance(1, 3) {
+					cs.Dir = "ask" // the cancelled call is the outer tool call; its handler is waiting for the client's answer to a nested request
+				}
 			}
 			if cs.CancelAt < 0 || r.Chance(1, 3) {
 				cs.ReleaseAt = cs.StartAt + r.Intn(8) // may tie with or precede the cancel
@@ -102,14 +107,14 @@ func genC04(r *vh.Rand) c04Spec {
 	s.EndAt = 20
 	hasS2C := false
 	for _, q := range s.Calls {
-		hasS2C = hasS2C || q.Dir == "s2c"
+		hasS2C = hasS2C || q.Dir != ""
 	}
 	if s.Mode == "sdk" && s.Transport != "http-stateless" && !hasS2C && r.Chance(1, 3) {
 		s.BlockAt, s.BlockMs = r.Intn(6), r.Range(2, 9)
 	}
 	if s.Mode == "sdk" {
 		for i := range s.Calls {
-			if s.Calls[i].CancelAt > s.Calls[i].StartAt && s.Calls[i].Dir == "" && r.Chance(1, 3) {
+			if s.Calls[i].CancelAt > s.Calls[i].StartAt && s.Calls[i].Dir != "s2c" && r.Chance(1, 3) {
 				s.Calls[i].ByDeadline = true
 			}
 		}
@@ -229,11 +234,32 @@ func runC04SDK(c *vh.Case, spec c04Spec) {
 		time.Sleep(ms(1))
 		return &mcp.CallToolResult{Content: []mcp.Content{&mcp.TextContent{Text: "outer-done"}}}, nil
 	})
+	server.AddTool(&mcp.Tool{Name: "ask", InputSchema: json.RawMessage(`{"type":"object"}`)}, func(ctx context.Context, req *mcp.CallToolRequest) (*mcp.CallToolResult, error) {
+		var a struct{ Nonce int }
+		json.Unmarshal(req.Params.Arguments, &a)
+		log.Add("handler-start", "n", a.Nonce)
+		// parked in a request to the client, made with the handler's own context
+		req.Session.CreateMessage(ctx, &mcp.CreateMessageParams{Meta: mcp.Meta{"nonce": a.Nonce + 5000}, MaxTokens: 1,
+			Messages: []*mcp.SamplingMessage{{Role: "user", Content: &mcp.TextContent{Text: "x"}}}})
+		if ctx.Err() != nil {
+			log.Add("handler-ctx-done", "n", a.Nonce, "cause", fmt.Sprint(context.Cause(ctx)))
+		}
+		log.Add("handler-finish", "n", a.Nonce)
+		return &mcp.CallToolResult{Content: []mcp.Content{&mcp.TextContent{Text: fmt.Sprintf("nonce-%d", a.Nonce)}}}, nil
+	})
 	client := mcp.NewClient(&mcp.Implementation{Name: "c", Version: "1"}, &mcp.ClientOptions{
 		CreateMessageHandler: func(ctx context.Context, req *mcp.CreateMessageRequest) (*mcp.CreateMessageResult, error) {
 			n := 0
 			if f, ok := req.Params.Meta["nonce"].(float64); ok {
 				n = int(f)
+			}
+			if n >= 5000 {
+				// nested request of an "ask" call: answered when that call is released, abandoned when it is cancelled
+				select {
+				case <-ctx.Done():
+				case <-release[n-5000]:
+				}
+				return &mcp.CreateMessageResult{Model: "m", Role: "assistant", Content: &mcp.TextContent{Text: "nested"}}, nil
 			}
 			log.Add("handler-start", "n", n)
 			select {
@@ -299,7 +325,15 @@ func runC04SDK(c *vh.Case, spec c04Spec) {
 				return
 			}
 			log.Add("call-start", "n", call.N)
-			res, err := cs.CallTool(cctx, &mcp.CallToolParams{Name: "park", Arguments: map[string]any{"nonce": call.N}})
+			tool := "park"
+			if call.Dir == "ask" {
+				tool = "ask"
+			}
+			args := map[string]any{"nonce": call.N}
+			if spec.Transport == "pipe-chunked" {
+				args["pad"] = strings.Repeat("x", 1500) // a long frame: other writers get their chance while it is on its way
+			}
+			res, err := cs.CallTool(cctx, &mcp.CallToolParams{Name: tool, Arguments: args})
 			log.Add("call-return", "n", call.N, "outcome", c04Classify(textOf(res), err))
 		}()
 	}
